@@ -38,11 +38,15 @@ func mangleSort(s string) string {
 // Decls collects global (path independent) declarations in first-use order.
 type Decls struct {
 	order  []string
+	keys   []string
 	seen   map[string]bool
 	slices map[string]bool
+	interp map[string]string // key -> alternative text used in refutation mode
 }
 
-func newDecls() *Decls { return &Decls{seen: map[string]bool{}, slices: map[string]bool{}} }
+func newDecls() *Decls {
+	return &Decls{seen: map[string]bool{}, slices: map[string]bool{}, interp: map[string]string{}}
+}
 
 func (d *Decls) add(key, text string) {
 	if d.seen[key] {
@@ -50,6 +54,7 @@ func (d *Decls) add(key, text string) {
 	}
 	d.seen[key] = true
 	d.order = append(d.order, text)
+	d.keys = append(d.keys, key)
 }
 
 func (d *Decls) sliceSort(elem string) string {
